@@ -356,6 +356,8 @@ func (b *wb) attestations(id int, holder int, force int) []int {
 	variant := r.Intn(16)
 	if force > 0 {
 		variant = force
+	} else if variant == 15 {
+		variant = 8 // variant 15 is produced only when asked for (dedicated strata); drawn at random it is a proper attestation, as before
 	}
 	switch variant {
 	case 10: // proper, but addressed to somebody else (it is not the citing token's own proof)
